@@ -35,6 +35,9 @@ BODIES = {
     "fiber_worker_yielding": "var stage = Fiber.new(|| { var prev = keep[(i + KEEP - 1) % KEEP]; var w = Fiber.new(|| { Fiber.yield(1); return [i]; }); w.call(); w.call(); keep[i % KEEP] = [w, type(prev)]; return 0; }); stage.call(); total += 1;",
     "fiber_finished_kept": "var w = Fiber.new(|a| { return [a, keep[(i + 1) % KEEP] == nil]; }); w.call(i); keep[i % KEEP] = w; total += 1;",
     "fiber_calls_kept_suspended": "var prev = keep[(i + KEEP - 1) % KEEP]; var fb = Fiber.new(|a| { var x = [a]; while true { x = [Fiber.yield(x)]; } }); fb.call(i); if type(prev) == Fiber { if !prev.has_finished() { prev.call(i); } } keep[i % KEEP] = fb; total += 1;",
+    "fiber_stage_closure": "var prev = keep[(i + KEEP - 1) % KEEP]; var fb = Fiber.new(|p| { var state = [0]; return |v| { state[0] = state[0] + v; return state[0]; }; }); var acc = fb.call(prev); acc(i); keep[i % KEEP] = acc; total += 1;",
+    "fiber_stage_param_closure": "var prev = keep[(i + KEEP - 1) % KEEP]; var fb = Fiber.new(|p| { var mine = [i]; var pad = p; Fiber.yield(|| mine); return 0; }); var g = fb.call(prev); fb.call(); keep[i % KEEP] = g; total += g().len();",
+    "fiber_stage_block_closure": "var prev = keep[(i + KEEP - 1) % KEEP]; var fb = Fiber.new(|p| { var out = nil; { var inner = [i, 1]; out = || inner; } var hold = p; return out; }); keep[i % KEEP] = fb.call(prev); total += 1;",
     "iter_chain": "var o = [i, i + 1, i + 2].iter().map(|v| v * 2).filter(|v| v % 4 == 0).collect(); keep[i % KEEP] = o; total += o.len();",
     "iterators": "var a = [i].iter(); var b = (i,).iter(); var c = \"ab\".iter(); var d = (0..2).iter(); a.next(); b.next(); c.next(); d.next(); keep[i % KEEP] = [a, b, c, d]; total += 1;",
     "caught_error": "try { nil + i; } catch e { keep[i % KEEP] = e; total += 1; }",
